@@ -104,7 +104,7 @@ RULES = {
            ">= 1 refusal; distinct by sequence hash.",
     "C11": "Scenario machine (profile journal). Non-trivial = journal with >= 3 entries of >= 2 kinds, or a hostile "
            "message, or a rename; distinct by (kind sequence, message class, rename).",
-    "C12": "API: Sign.String -> commit bytes -> NewCommit over names x e-mails x instants x all 105 offsets x messages; "
+    "C12": "API: Sign.String -> commit bytes -> NewCommit over names x e-mails x instants x all 105 offsets x messages, two thirds of them read back in a process whose own zone has a transition (labels reader-zone:*); "
            "CLI: commit under a TZif file per offset, cat-file -p, log. Non-trivial = offset != 0 or multi-line / "
            "non-ASCII message; distinct by (offset, name, message).",
     "C13": "Scenario machine (profile worktree). Non-trivial = at least two of {modified, deleted, untracked} "
